@@ -49,7 +49,9 @@ that FAILS with your change and PASSES without it.
 Verify all of this yourself, by running:
 - the existing suite WITH the change (must pass),
 - the demo WITH the change (must fail),
-- the demo WITHOUT the change (`git stash` the source change; must pass).
+- the demo WITHOUT the change (must pass). NEVER use `git stash` (the stash is shared between all worktrees of
+  this repository and other people use it): instead `git diff -- src cpp > ../my.diff && git checkout -- src cpp`,
+  run the demo, then `git apply ../my.diff` and check `git diff --stat`.
 
 ## Deliverables (in `{base}/out/`)
 
